@@ -129,17 +129,24 @@ ExpRemoved(init, des) == {m \in Managed \ DOMAIN des : init[m] # "none"}
 
 UnmanagedUntouched(init, out) == \A u \in Unmanaged : out.dir[u] = init[u]
 
-PostOK(init, des, out) ==
+\* the part of the statement about the directory and the error (observable through any caller)
+PostDirOK(init, des, out) ==
     /\ UnmanagedUntouched(init, out)
     /\ DOMAIN des \subseteq Managed =>
         /\ ~out.err =>                                   \* success: exact
-            /\ \A m \in Managed : IF m \in DOMAIN des THEN Holds(out.dir, m, des[m])
-                                                    ELSE out.dir[m] = "none"
-            /\ out.changed = ExpChanged(init, des)
-            /\ out.removed = ExpRemoved(init, des)
+            \A m \in Managed : IF m \in DOMAIN des THEN Holds(out.dir, m, des[m])
+                                                  ELSE out.dir[m] = "none"
         /\ WriteFails(init, des) =>                      \* fail closed
             /\ out.err
             /\ \A m \in Managed : out.dir[m] # "none" => (init[m] = "ndir" /\ out.dir[m] = "ndir")
+
+\* the part about the returned lists
+PostListsOK(init, des, out) ==
+    (DOMAIN des \subseteq Managed /\ ~out.err) =>
+        /\ out.changed = ExpChanged(init, des)
+        /\ out.removed = ExpRemoved(init, des)
+
+PostOK(init, des, out) == PostDirOK(init, des, out) /\ PostListsOK(init, des, out)
 
 ---------------------------------------------------------------------------
 VARIABLE s
